@@ -243,5 +243,7 @@ pub fn def() -> PropertyDef {
         witnesses: vec![],
         exhaustive: None,
         exhaustive_in_quick: false,
+        custom: None,
+        custom_replay: None,
     }
 }
